@@ -164,6 +164,7 @@ class InitReader:
         self.tree = module_ast("periodictable/%s.py" % modname)
         self.lazy = lazy
         self.effs = []
+        self.vids = {}
         self.mutable_globals = self._mutable_globals()
         self.depth = 0
 
@@ -269,7 +270,11 @@ class InitReader:
         if isinstance(tgt, ast.Attribute):
             if isinstance(tgt.value, ast.Name) and tgt.value.id in CLASSES and tgt.value.id not in env:
                 if tgt.attr in self.lazy:
-                    self.emit("classWrite", CLASSES[tgt.value.id], tgt.attr, _callname(value) == "property")
+                    # identity of the stored object within one run of the init: the same local name
+                    # (`Isotope.x = missing; Element.x = missing`) is one object, anything else its own
+                    vkey = ("name", value.id) if isinstance(value, ast.Name) else ("expr", len(self.effs))
+                    vid = self.vids.setdefault(vkey, len(self.vids))
+                    self.emit("classWrite", CLASSES[tgt.value.id], tgt.attr, _callname(value) == "property", vid)
                 return
             k = self.kind(tgt.value, env)
             self.reads(tgt.value, env)
@@ -495,7 +500,7 @@ def lean_eff(e, cfg):
     if e[0] == "guard":
         return ".guard %d" % cfg["guards"].index(e[1])
     if e[0] == "classWrite":
-        return ".classWrite %s %d %s" % (_cls(e[1]), a.index(e[2]), "true" if e[3] else "false")
+        return ".classWrite %s %d %s %d" % (_cls(e[1]), a.index(e[2]), "true" if e[3] else "false", e[4])
     if e[0] == "instWrite":
         return ".instWrite %s %d .%s %s" % (_cls(e[1]), a.index(e[2]), e[3], "true" if e[4] else "false")
     if e[0] == "probe":
